@@ -665,3 +665,57 @@ proof fn lemma_near_year(q: FindQuery, off: int)
 {
     lemma_secs_in_year(q.year as int, q.month as int, q.month_day as int, q.hour as int, q.minute as int, q.second as int);
 }
+
+proof fn lemma_gaps_sound_rule_weaken(z: TimeZoneRef, q: FindQuery, a: AlternateTime, sorted: bool, t: Seq<int>, rs: Seq<FoundDateTimeKind>)
+    requires
+        gaps_sound(z, q, rs),
+    ensures
+        gaps_sound_rule(z, q, a, sorted, t, rs),
+{
+    assert forall|i: int| 0 <= i < rs.len() && (#[trigger] rs[i]) is Skipped implies
+        (exists|j: int| #[trigger] table_gap(z, q, j, rs[i])) || (exists|j: int| #[trigger] walk_gap(q, a, sorted, t, rule_from(z), j, rs[i])) by {
+        assert(gap_sound(z, q, rs[i]));
+    }
+}
+
+proof fn lemma_gaps_sound_rule_push(z: TimeZoneRef, q: FindQuery, a: AlternateTime, sorted: bool, t: Seq<int>, rs: Seq<FoundDateTimeKind>, k: FoundDateTimeKind, j: int)
+    requires
+        gaps_sound_rule(z, q, a, sorted, t, rs),
+        k is Skipped ==> walk_gap(q, a, sorted, t, rule_from(z), j, k),
+    ensures
+        gaps_sound_rule(z, q, a, sorted, t, rs.push(k)),
+{
+    assert forall|i: int| 0 <= i < rs.push(k).len() && (#[trigger] rs.push(k)[i]) is Skipped implies
+        (exists|jj: int| #[trigger] table_gap(z, q, jj, rs.push(k)[i])) || (exists|jj: int| #[trigger] walk_gap(q, a, sorted, t, rule_from(z), jj, rs.push(k)[i])) by {
+        if i < rs.len() {
+            assert(rs.push(k)[i] == rs[i]);
+        } else {
+            assert(walk_gap(q, a, sorted, t, rule_from(z), j, rs.push(k)[i]));
+        }
+    }
+}
+
+proof fn lemma_has_walk_gap_push(q: FindQuery, a: AlternateTime, sorted: bool, t: Seq<int>, p0: int, j: int, rs: Seq<FoundDateTimeKind>, k: FoundDateTimeKind)
+    requires
+        has_walk_gap(q, a, sorted, t, p0, j, rs) || walk_gap(q, a, sorted, t, p0, j, k),
+    ensures
+        has_walk_gap(q, a, sorted, t, p0, j, rs.push(k)),
+{
+    if has_walk_gap(q, a, sorted, t, p0, j, rs) {
+        let i = choose|i: int| 0 <= i < rs.len() && #[trigger] walk_gap(q, a, sorted, t, p0, j, rs[i]);
+        assert(walk_gap(q, a, sorted, t, p0, j, rs.push(k)[i]));
+    } else {
+        assert(walk_gap(q, a, sorted, t, p0, j, rs.push(k)[rs.len() as int]));
+    }
+}
+
+proof fn lemma_walk_gaps_push(q: FindQuery, a: AlternateTime, sorted: bool, t: Seq<int>, p0: int, rs: Seq<FoundDateTimeKind>, hi: int, k: FoundDateTimeKind)
+    requires
+        walk_gaps_found(q, a, sorted, t, p0, rs, hi),
+    ensures
+        walk_gaps_found(q, a, sorted, t, p0, rs.push(k), hi),
+{
+    assert forall|j: int| 0 <= j < hi && #[trigger] walk_gap_cond(q, a, sorted, t, p0, j) implies has_walk_gap(q, a, sorted, t, p0, j, rs.push(k)) by {
+        lemma_has_walk_gap_push(q, a, sorted, t, p0, j, rs, k);
+    }
+}
